@@ -230,6 +230,7 @@ inductive Fault
   | useAfterFree | doubleFree | typeConfusion
   | abort          -- documented abort: NULL argument, `write`/`end` after `end`
   | rContract      -- `R` used a boxed handler it no longer owns (impossible for safe Rust)
+  | rType          -- `R` answered with a value of the wrong type (impossible for typed Rust)
   | fuel
   deriving DecidableEq, Repr
 
@@ -253,6 +254,7 @@ inductive CRes
   | bool (b : Bool)
   | raw                      -- value handed through
   | void
+  | taken (m : Option ErrMsg) -- `lol_html_take_last_error`: the message (`none` = `data == NULL`)
   deriving DecidableEq, Repr
 
 /-- Which rule set decides whether a call is permitted. `header` = lol_html.h as written;
@@ -348,8 +350,10 @@ def strFree (_pol : Policy) (e : Env R) (v : Nat) : Res (Env R) :=
 /-- errors.rs:8 `lol_html_take_last_error` -/
 def takeLastError (e : Env R) (t : Tid) (dst : Nat) : Env R :=
   match e.lastErr t with
-  | none => nullStr e dst
-  | some _ => allocStr { e with lastErr := fun x => if x = t then none else e.lastErr x } dst
+  | none => (e.setVar dst none).out (.taken none)
+  | some m =>
+    let (e, h) := alloc { e with lastErr := fun x => if x = t then none else e.lastErr x } .str
+    (e.setVar dst (some h)).out (.taken (some m))
 
 /-! ## Streaming handlers (streaming.rs) -/
 
@@ -442,83 +446,94 @@ def mutationAllowed (pol : Policy) (e : Env R) (f : Nat) : Bool :=
   | .header => true
   | .headerPlus => !(mutatesAttrs f && liveIterInScope e)
 
-/-- Apply a Rust method and bump the attribute epoch when it touches the attribute vector. -/
-def callR (s : HState R) (op : ROp) : Res (HState R × RRes) :=
-  let (u, r, dropped) := R.unitOp s.u op
-  let bump := match op, r with
-    | .call _ _ _, .err _ => false          -- the name was rejected before the vector was touched
-    | .call f _ _, _ => mutatesAttrs f
-    | _, _ => false
-  do
-    let env ← dropAll s.env dropped
-    pure ({ u := u, env := if bump then { env with epoch := env.epoch + 1 } else env }, r)
+/-- `Policy.headerPlus` forbids `&mut self` attribute methods while an iterator is live. -/
+def opAllowed (pol : Policy) (e : Env R) : ROp → Bool
+  | .call f _ _ => mutationAllowed pol e f
+  | _ => true
+
+/-- Does this call touch the attribute vector? (An `Err` means the name was rejected before.) -/
+def bumps : ROp → RRes → Bool
+  | .call _ _ _, .err _ => false
+  | .call f _ _, _ => mutatesAttrs f
+  | _, _ => false
+
+/-- Apply a Rust method; drop the boxed handlers it displaced; bump the attribute epoch when the
+    attribute vector was touched. -/
+def callR (pol : Policy) (s : HState R) (op : ROp) : Res (HState R × RRes) :=
+  if opAllowed pol s.env op then
+    match dropAll s.env (R.unitOp s.u op).2.2 with
+    | .ok env =>
+      let r := (R.unitOp s.u op).2.1
+      .ok ({ u := (R.unitOp s.u op).1,
+             env := if bumps op r then { env with epoch := env.epoch + 1 } else env }, r)
+    | .notPermitted w => .notPermitted w
+    | .fault f => .fault f
+  else .notPermitted "attribute mutation while an attribute iterator is live"
 
 /-- One C entry point on the current unit, executed by thread `t`. -/
 def cUnitOp (pol : Policy) (t : Tid) (s : HState R) : COp → Res (HState R)
   | .strGet dst f => do
-    let (s, r) ← callR s (.get f [])
+    let (s, r) ← callR pol s (.get f [])
     match r with
     | .str _ => pure { s with env := allocStr s.env dst }
-    | _ => .fault .typeConfusion
+    | _ => .fault .rType
   | .optStrGet dst f args =>
     match decodeArgs args with
     | .error err => pure { s with env := nullStr (saveLastError s.env t (.utf8 err)) dst }
     | .ok args => do
-      let (s, r) ← callR s (.get f args)
+      let (s, r) ← callR pol s (.get f args)
       match r with
       | .optStr (some _) => pure { s with env := allocStr s.env dst }
       | .optStr none => pure { s with env := nullStr s.env dst }
-      | _ => .fault .typeConfusion
+      | _ => .fault .rType
   | .intGet f args =>
     match decodeArgs args with
     | .error err => pure { s with env := (saveLastError s.env t (.utf8 err)).out (.code (-1)) }
     | .ok args => do
-      let (s, r) ← callR s (.get f args)
+      let (s, r) ← callR pol s (.get f args)
       match r with
       | .bool b => pure { s with env := s.env.out (.code (if b then 1 else 0)) }
-      | _ => .fault .typeConfusion
+      | _ => .fault .rType
   | .fallible f args =>
     match decodeArgs args with
     | .error err => pure { s with env := (saveLastError s.env t (.utf8 err)).out (.code (-1)) }
     | .ok args => do
-      require (mutationAllowed pol s.env f) "attribute mutation while an attribute iterator is live"
-      let (s, r) ← callR s (.call f args false)
+      let (s, r) ← callR pol s (.call f args false)
       match r with
       | .unit => pure { s with env := s.env.out (.code 0) }
       | .err m => pure { s with env := (saveLastError s.env t (.rust m)).out (.code (-1)) }
-      | _ => .fault .typeConfusion
+      | _ => .fault .rType
   | .infallible f args isHtml =>
     match decodeArgs args with
     | .error err => pure { s with env := (saveLastError s.env t (.utf8 err)).out (.code (-1)) }
     | .ok args => do
-      require (mutationAllowed pol s.env f) "attribute mutation while an attribute iterator is live"
-      let (s, _) ← callR s (.call f args isHtml)
+      let (s, _) ← callR pol s (.call f args isHtml)
       pure { s with env := s.env.out (.code 0) }
   | .void f => do
-    let (s, _) ← callR s (.call f [] false)
+    let (s, _) ← callR pol s (.call f [] false)
     pure { s with env := s.env.out .void }
   | .boolGet f => do
-    let (s, r) ← callR s (.get f [])
+    let (s, r) ← callR pol s (.get f [])
     match r with
     | .bool b => pure { s with env := s.env.out (.bool b) }
-    | _ => .fault .typeConfusion
+    | _ => .fault .rType
   | .rawGet f => do
-    let (s, _) ← callR s (.get f [])
+    let (s, _) ← callR pol s (.get f [])
     pure { s with env := s.env.out .raw }
   | .bytesFallible f b isHtml => do
-    let (s, r) ← callR s (.callBytes f b isHtml)
+    let (s, r) ← callR pol s (.callBytes f b isHtml)
     match r with
     | .unit => pure { s with env := s.env.out (.code 0) }
     | .err m => pure { s with env := (saveLastError s.env t (.rust m)).out (.code (-1)) }
-    | _ => .fault .typeConfusion
+    | _ => .fault .rType
   | .addEndTagHandler hid => do
-    let (s, r) ← callR s (.addEndTagHandler hid)
+    let (s, r) ← callR pol s (.addEndTagHandler hid)
     match r with
     | .unit => pure { s with env := s.env.out (.code 0) }
     | .absent => pure { s with env := (saveLastError s.env t .noEndTag).out (.code (-1)) }
-    | _ => .fault .typeConfusion
+    | _ => .fault .rType
   | .clearEndTagHandlers => do
-    let (s, _) ← callR s .clearEndTagHandlers
+    let (s, _) ← callR pol s .clearEndTagHandlers
     pure { s with env := s.env.out .void }
   | .streaming f h =>
     match h with
@@ -536,15 +551,15 @@ def cUnitOp (pol : Policy) (t : Tid) (s : HState R) : COp → Res (HState R)
           let env ← releaseHandler env sid
           pure { s with env := env.out (.code (-1)) }
         else do
-          let (s, _) ← callR { s with env := env } (.streaming f sid)
+          let (s, _) ← callR pol { s with env := env } (.streaming f sid)
           pure { s with env := s.env.out (.code 0) }
   | .iterGet dst => do
-    let (s, r) ← callR s .attrCount
+    let (s, r) ← callR pol s .attrCount
     match r with
     | .nat n =>
       let (env, h) := alloc s.env (.attrIter 0 n s.env.scope s.env.epoch)
       pure { s with env := (env.setVar dst (some h)).out (.ptr false) }
-    | _ => .fault .typeConfusion
+    | _ => .fault .rType
   | .iterNext it => do
     require (validArg s.env it .attrIter) "iterator_next: not a live iterator"
     let (h, o) ← deref s.env it .attrIter
@@ -572,10 +587,10 @@ def cUnitOp (pol : Policy) (t : Tid) (s : HState R) : COp → Res (HState R)
         require (0 < pos && pos ≤ len) "attribute pointer is NULL"
         if epoch ≠ s.env.epoch then .fault .useAfterFree
         else
-          let (s, r) ← callR s (.attrGet (pos - 1) f)
+          let (s, r) ← callR pol s (.attrGet (pos - 1) f)
           match r with
           | .str _ => pure { s with env := allocStr s.env dst }
-          | _ => .fault .typeConfusion
+          | _ => .fault .rType
     | _ => .fault .typeConfusion
   | .strFree v => do
     let env ← strFree pol s.env v
